@@ -18,6 +18,7 @@ const (
 	callBlocked
 	callYield
 	callPushed
+	callDoneYield // the operation completed; other goroutines may run before the next instruction
 )
 
 type callCtx struct {
@@ -643,6 +644,9 @@ func mutexUnlock(c *callCtx, p Ptr, cell int) (Value, callStatus) {
 		panic(pathEnd{kind: endPanic, msg: "fatal error: sync: unlock of unlocked mutex"})
 	}
 	e.set(p.obj, p.off+cell, BV(32, 0))
+	if e.yieldAfter(c.g) {
+		return nil, callDoneYield
+	}
 	return nil, callDone
 }
 
